@@ -57,6 +57,8 @@ class Batch:
                     b = {"ok": partition(b["ok"])}
                 elif proj == "sorted":
                     b = {"ok": sorted(b["ok"])}
+                elif proj == "closure":
+                    b = {"ok": [[x - 1 for x in g] for g in b["ok"]]}
                 elif proj == "strtype":
                     if "ok" in a and a["ok"].get("int") == "skip":
                         b["ok"]["int"] = "skip"
@@ -529,4 +531,22 @@ def stage_pylex(batch, s):
 
     ans = impl_call(run)
     batch.add({"op": "pylex", "in": tok}, ans, {"string": s})
+    return ans
+
+
+def stage_closure(batch, n, edges):
+    """the grouping loop alone: table-driven registry vs Closure.mergeGroups (group list incl. order)"""
+    def run():
+        sample = {"holder%d" % i: {"k%d" % i: i} for i in range(n)}
+        g = MetadataGenerator(make_registry())
+        reg = _TableRegistry(TableCmp([["k%d" % a, "k%d" % b] for a, b in edges]))
+        reg.process_meta_data(g.generate(sample), "Root")
+        pos = {m.index: i - 1 for i, m in enumerate(reg.models)}      # position 0 is Root
+        repl = reg.merge_models(g)
+        return [sorted(pos[m.index] for m in grp) for _, grp in repl]
+
+    ans = impl_call(run)
+    # the model sees n+1 models (Root first, unrelated to everything): shift positions by one
+    batch.add({"op": "closure", "n": n + 1, "edges": [[a + 1, b + 1] for a, b in edges]}, ans,
+              {"n": n, "edges": edges, "project": "closure"})
     return ans
